@@ -5,7 +5,7 @@
    strings (no length bound).  DELIMS = ",)" as passed by STEPattribute::STEPread. *)
 From Coq Require Import List ZArith NArith Bool.
 From SC.gen Require Import SevTable Consts.
-From SC Require Import P21Lex P21Lex_Proofs P21Enum P21Enum_Proofs.
+From SC Require Import P21Lex P21Lex_Proofs P21Enum P21Enum_Proofs P21Str P21Str_Proofs.
 Import ListNotations.
 Local Open Scope Z_scope.
 
@@ -110,4 +110,27 @@ Example c09_examples :
   snd (fst (read_integer (of_bytes (repeat 57%N 22 ++ [44%N])) 3 (Some DELIMS))) = 0 /\
   (* "E5," *) snd (fst (read_real (of_bytes [69;53;44]%N) 3 (Some DELIMS))) = 0 /\
   (* "1E+22" -> "1.E+22" *) write_real_text [49;69;43;50;50]%N = [49;46;69;43;50;50]%N.
+Proof. vm_compute. repeat split. Qed.
+
+(* STRING (Str.cc GetLiteralStr, sdaiString.cc STEPread): every well-formed literal -- any sequence of
+   plain characters, doubled apostrophes, doubled reverse solidi, page escapes \S\c (c may be an
+   apostrophe) and other escapes without apostrophe -- followed by anything but an apostrophe is read
+   exactly to its closing quote with no error, and nothing of what follows is consumed; a literal that
+   is never closed is reported, never accepted. *)
+Theorem c09_string_literal_extent : forall its rest,
+  forallb item_ok its = true -> not_apos_head rest ->
+  string_read (APOS :: body its ++ APOS :: rest) = (APOS :: body its ++ [APOS], SEVERITY_NULL, rest).
+Proof. exact string_read_wellformed. Qed.
+Print Assumptions c09_string_literal_extent.
+
+Theorem c09_unclosed_string_reported : forall its,
+  forallb item_ok its = true -> exists s, string_read (APOS :: body its) = (s, SEVERITY_INPUT_ERROR, []).
+Proof. exact unclosed_reported. Qed.
+Print Assumptions c09_unclosed_string_reported.
+
+(* non-vacuity: 'a\S\'b', and 'it''s' followed by a parenthesis *)
+Example c09_string_examples :
+  string_read [39; 97; 92; 83; 92; 39; 98; 39; 44]%N = ([39; 97; 92; 83; 92; 39; 98; 39]%N, SEVERITY_NULL, [44%N]) /\
+  forallb item_ok [Plain 97%N; Page 39%N; Plain 98%N] = true /\
+  string_read [39; 105; 116; 39; 39; 115; 39; 41]%N = ([39; 105; 116; 39; 39; 115; 39]%N, SEVERITY_NULL, [41%N]).
 Proof. vm_compute. repeat split. Qed.
